@@ -137,6 +137,8 @@ def e1_merge_term_loop(ctx):
     tlc_mc(ctx, "MergeTermLoop", "MC_MergeTermLoop.cfg")
     if not ctx.quick:
         tlc_mc(ctx, "MergeTermLoop", "MC_MergeTermLoop_3seg.cfg")
+        tlc_mc(ctx, "MergeTermLoop", "MC_MergeTermLoop_3terms.cfg")
+        tlc_mc(ctx, "MergeTermLoop", "MC_MergeTermLoop_thorough.cfg")
     devs(ctx, "MergeTermLoop", ["FoldedCondition", "OneHitLeq", "CardCountsDropped"], "AllRight", workers=8)
 
 
